@@ -541,6 +541,8 @@ class Element(Node):
             It will not check that the attribute is legal according to the schema.
             Must overwrite, If attribute already exists.
         """
+        if namespace == u'':
+            namespace = None # one way to say "no namespace": an attribute is stored once
         allowed_attrs = self.allowed_attributes()
         prefix = self.get_nsprefix(namespace)
 #       if allowed_attrs and (namespace, localpart) not in allowed_attrs:
@@ -558,6 +560,8 @@ class Element(Node):
         are byte strings, it will be a bytes; if both attributes are
         unicode strings, it will be a unicode string
         """
+        if namespace == u'':
+            namespace = None
         prefix = self.get_nsprefix(namespace)
         result = self.attributes.get((namespace, localpart))
 
@@ -571,6 +575,8 @@ class Element(Node):
         return result
 
     def removeAttrNS(self, namespace, localpart):
+        if namespace == u'':
+            namespace = None
         del self.attributes[(namespace, localpart)]
 
     def getAttribute(self, attr):
